@@ -5,19 +5,21 @@ sys.path.insert(0, os.path.dirname(os.path.dirname(os.path.abspath(__file__))))
 from harness import tlc, core, drivers, chars
 syms=set(sys.argv[1].split(',')); n=int(sys.argv[2]); pack=sys.argv[3] if len(sys.argv)>3 else 'xcolor,listings,amsmath'
 c=core.Check('TST','quick',0)
+MODE='extr' if len(sys.argv)>4 and 'extr' in sys.argv[4] else 'normal'
+OPT=dict(pack=pack); OPT.update(json.loads(sys.argv[4]) if len(sys.argv)>4 else {})
 cfg=tlc.cfg_text(constants={'Sym':syms,'MaxSym':n,'MaxDepth':3,'Free':False},invariants=['SrcIsConc','AnchorsInSrc','AnchorsOrdered','FinalKeeps','Dump'])
 r=c.tlc('gen','Gen',cfg)
 beh=r.json('@@'); print('docs',len(beh),'states',r.distinct)
-cases=[{'id':i,'doc':b['doc'],'src':b['src'],'opts':{'pack':pack} if pack else {}} for i,b in enumerate(beh)]
+cases=[{'id':i,'doc':b['doc'],'src':b['src'],'opts':OPT} for i,b in enumerate(beh)]
 recs=c.drive(cases,drivers.drive_filter)
 bad=[x for x in recs if x['outcome']!='returned']; print('not returned',len(bad), bad[:2])
-V=c.validate('obs','Obs',[x for x in recs if x['outcome']=='returned'],project=lambda x:dict({k:x[k] for k in('id','doc','src','plain','map')},ndef=0,prefix=[],lang=[],seqs=False))
+V=c.validate('obs','Obs',[x for x in recs if x['outcome']=='returned'],project=lambda x:dict({k:x[k] for k in('id','doc','src','plain','map')},ndef=0,prefix=[],lang=[],seqs=False,unkn=bool(OPT.get('unkn')),extr=bool(OPT.get('extr')),diags=x.get('diags',[])))
 cnt=collections.Counter(); ex={}
 for x in recs:
     v=V.get(x['id'])
     if not v: continue
-    for k in ('c01','c02','c03','c04','c05','c10','c11'):
-        if v[k] not in('ok','skipped'):
+    for k in ('c01','c02','c03','c04','c05','c10','c11','c08','c18','c19'):
+        if v.get(k,'ok') not in('ok','skipped'):
             key=k+':'+v[k].split('@')[0].split('-at-')[0]
             cnt[key]+=1
             if key not in ex or len(x['src'])<len(ex[key][0]['src']): ex[key]=(x,v[k])
